@@ -621,6 +621,30 @@ def r10_no_narrowing(idx, r):
         raise AnalysisError(f"Layout.writeToDB: only {n} array constructions/datasets found")
 
 
+def r11_grid_metadata_owner(idx, r):
+    """reduce() hands the private _geomType / _symmetry strings to the database as they are; the grid's own setters canonicalise them
+    (`hex_corners_up` -> `hex`).  Code outside the grid classes that writes the private field of ANOTHER object bypasses that: the grid built
+    from blueprints and the grid rebuilt from its stored arguments then differ in metadata."""
+    grid = idx.cls("armi.reactor.grids.grid.Grid")
+    setter = next((x for x in grid.node.body if isinstance(x, ast.FunctionDef) and x.name == "geomType" and any("setter" in norm(d) for d in x.decorator_list)), None)
+    if setter is None or "GeomType.fromAny" not in norm(setter):
+        raise AnchorMissing("Grid.geomType setter canonicalising through GeomType.fromAny")
+    n = 0
+    for m in idx.modules.values():
+        if not m.name.startswith("armi.") or ".tests" in m.name:
+            continue
+        for f in m.all_funcs():
+            for s_ in iter_stores(f.node):
+                if s_.attr == "_geomType" and s_.chain and s_.chain != "self._geomType":
+                    n += 1
+                    r.violate(f"{f.qualname}:writes-foreign-_geomType", f, f"`{norm(s_.stmt)[:70]}` writes the private geometry label of another object, bypassing the canonicalising setter: the grid reduces to "
+                              "a different geomType before and after a database round trip", node=s_.stmt)
+    own = [f for f in idx.all_funcs() if f.cls is not None and f.cls.is_subclass_of(grid) or (f.cls is grid)]
+    r.ok("foreign-writers-scanned", grid)
+    users = [c for m in idx.modules.values() if m.name.startswith("armi.reactor.blueprints") for f in m.all_funcs() for c in iter_stores(f.node) if c.attr == "geomType" and c.chain and c.chain.endswith(".geomType")]
+    r.require(bool(users), "blueprint-sets-geomType-through-the-property", grid, msg="the grid blueprint must label the grid through Grid.geomType")
+
+
 def run(idx, chk):
     chk.explanation = (
         "C04: Layout.writeToDB/_readLayout, _createLayout/_initComps/_compose, _packLocationsV3/_unpackLocationsV2, "
@@ -651,3 +675,5 @@ def run(idx, chk):
                  necessary="location kinds written = location kinds rebuilt, also for single-site multi-locations")
     chk.run_rule("R04.10", "Layout.writeToDB never narrows the numeric type of what it stores", lambda r: r10_no_narrowing(idx, r), floor=12,
                  necessary="a grid rebuilt from the stored constructor arguments has the same bounds and steps, bit for bit")
+    chk.run_rule("R04.11", "the geometry label of a grid is written through its canonicalising property only", lambda r: r11_grid_metadata_owner(idx, r), floor=2,
+                 necessary="a grid rebuilt from its stored constructor arguments has the same metadata")
